@@ -1,5 +1,5 @@
 """C17: the category dictionary restricts exactly the listed words; shipped dictionary / inventories are applicable."""
-import time, itertools
+import time, itertools, collections
 import numpy as np
 from mc import boot, core, cats as K, data
 
@@ -65,7 +65,7 @@ def shard_fn(sh):
         doc_words = docs_all[di]
         for dct in dicts:
             cdict = {w: [cats[j] for j in s] for w, s in dct.items()}
-            for form in ('list', 'single') if len(doc_words) == 1 else ('list',):
+            for form in ('list', 'single', 'defaultdict') if len(doc_words) == 1 else ('list', 'defaultdict'):
                 st.count('cases')
                 docs, srs = make_case(doc_words, ncat, di)
                 orig = [(t.copy(), d.copy()) for t, d in srs]
@@ -74,6 +74,12 @@ def shard_fn(sh):
                 try:
                     if form == 'single':
                         rd, rs = parsing.apply_category_filters(docs[0], srs[0], list(cats), dict(cdict))
+                    elif form == 'defaultdict':
+                        # a dictionary that answers unknown words with an empty list (collections.defaultdict) is a dictionary too
+                        dd = collections.defaultdict(list, cdict)
+                        rd, rs = parsing.apply_category_filters(docs, srs, list(cats), dd)
+                        if set(dd) != set(cdict):
+                            st.violation('dictionary_modified', f'the dictionary gained the entries {sorted(set(dd) - set(cdict))}', **base)
                     else:
                         rd, rs = parsing.apply_category_filters(docs, srs, list(cats), dict(cdict))
                 except Exception as e:
